@@ -217,11 +217,20 @@ def build_block(C, b):
     return C.CBlock.deserialize(raw)
 
 
-NOWIT = '-'      # the witness merkle root of a block without witness data: outside the statement, not compared
+NWD = 'err:py:NoWitnessData'
 
 
-def obj_has_witness(txs):
-    return any(has_witness(txfmt.from_tx(t)) for t in txs)
+def wroot_ok(x, y, txs_text):
+    """x: what the code gave for the witness merkle root, y: the model's answer.  The statement defines the witness
+    root of EVERY non-empty list as the merkle root over [0, wtxid_1, …]; on a list without witness data the library
+    refuses with NoWitnessData (its documented contract).  Accepted there: that refusal, or the Spec's root — a
+    value is compared with the reference (Spec.Merkle.witnessRoot in the driver), never with a constant."""
+    if x == y:
+        return True
+    if y == NWD and not x.startswith('err:'):
+        from ..framework import run_driver
+        return x == run_driver(['c15.spec.wmerkle\t' + txs_text])[0]
+    return False
 
 
 def run_seq(C, bitcoin, a):
@@ -265,7 +274,7 @@ def run_seq(C, bitcoin, a):
             if k == 'mr':
                 return b.calc_merkle_root().hex()
             if k == 'wr':
-                return b.calc_witness_merkle_root().hex() if obj_has_witness(b.vtx) else NOWIT
+                return b.calc_witness_merkle_root().hex()
             if k == 'gw':
                 return str(b.GetWeight())
             if k == 's0':
@@ -322,15 +331,19 @@ def run_seq(C, bitcoin, a):
 
 def seq_agree(c, io, mo):
     """step by step; a constructor step that refuses may refuse with any error"""
-    mo = mo.replace('err:py:NoWitnessData', NOWIT)
     n = int(c['args'][0])
     steps = c['args'][1 + n:]
     a, b = io.split(','), mo.split(',')
     if len(a) != len(b) or len(a) != len(steps):
         return False
     for st, x, y in zip(steps, a, b):
-        if x != y and not (st.startswith('ctor:') and x.startswith('err:') and y.startswith('err:')):
-            return False
+        if x == y:
+            continue
+        if st.startswith('ctor:') and x.startswith('err:') and y.startswith('err:'):
+            continue
+        if st.startswith('wr:') and wroot_ok(x, y, '/'.join(c['args'][1 + int(st[3:])][2:].split('/')[1:])):
+            continue
+        return False
     return True
 
 
@@ -402,8 +415,9 @@ class C15(Prop):
             'edits, observed when built and again after the originals are edited once more, the edited objects themselves '
             'observed through every per-transaction observer; every ordered pair of observers on one block / one '
             'transaction object and block histories (op c16.seq); compared: roots, weights, sizes, "refused" as ok-vs-error '
-            '(never the cached trees, never the error class of a refusal); out-of-domain inputs (empty lists, no witness '
-            'data for the witness root, empty vin/vout, out-of-range mutable fields) are observations only; non-trivial = every case '
+            '(never the cached trees, never the error class of a refusal); the witness root of a list WITHOUT witness data '
+            'is compared too: the NoWitnessData refusal or the Spec root over [0, wtxid…] is accepted, nothing else; '
+            'out-of-domain inputs (empty lists, empty vin/vout, out-of-range mutable fields) are observations only; non-trivial = every case '
             '(no default-constructed object is generated); distinct by canonical request line')
 
     def setup(self):
@@ -511,10 +525,8 @@ class C15(Prop):
                 arg = show_txs(txs)
                 yield mk('c15.merkle', arg, tag='merkle n=%d %s' % (n, pat))
                 yield mk('c15.spec.merkle', arg, tag='spec-merkle n=%d %s' % (n, pat))
-                # (without witness data the statement defines no witness root: an observation only)
-                yield mk('c15.wmerkle', arg, tag='wmerkle n=%d %s' % (n, pat), ood=not any(has_witness(t) for t in txs))
-                if any(has_witness(t) for t in txs):
-                    yield mk('c15.spec.wmerkle', arg, tag='spec-wmerkle n=%d %s' % (n, pat))
+                yield mk('c15.wmerkle', arg, tag='wmerkle n=%d %s' % (n, pat))
+                yield mk('c15.spec.wmerkle', arg, tag='spec-wmerkle n=%d %s' % (n, pat))
                 # constructor decision
                 right = ref_root([txid(t) for t in txs])
                 roots = [('zero', ZERO32), ('right', right), ('wrong', rnd_bytes(rng, 32)),
@@ -873,8 +885,7 @@ class C15(Prop):
         if op in ('c15.wmerkle', 'c15.spec.wmerkle'):
             txs = parse_txs(a[0])
             r = guarded(lambda: C.CBlock(vtx=[txfmt.to_tx(t) for t in txs]).calc_witness_merkle_root().hex())
-            # non-empty list without witness data: whatever the call does (the code raises NoWitnessData) is not compared
-            return r if (not txs or any(has_witness(t) for t in txs)) else NOWIT
+            return r
         if op in ('c15.ctor', 'c15.spec.ctor'):
             def f():
                 b = txfmt.parse_block(a[0])
@@ -905,10 +916,14 @@ class C15(Prop):
         raise ValueError(op)
 
     def agree(self, c, io, mo):
-        # only what the statement constrains: roots, weights, "refused" (any error) for a wrong declared root; the
-        # witness root of a block WITHOUT witness data is not defined by it (NOWIT on both sides)
-        mo = mo.replace('err:py:NoWitnessData', NOWIT)
+        # only what the statement constrains: roots, weights, "refused" (any error) for a wrong declared root; on a
+        # list without witness data the witness root may be refused (NoWitnessData) or must be the Spec's (wroot_ok)
         op = c['op']
+        if op == 'c15.wmerkle':
+            return wroot_ok(io, mo, c['args'][0])
+        if op == 'c15.spec.wmerkle':
+            # mo is the Spec's root; the library may refuse (only) when no transaction carries witness data
+            return io == mo or (io == NWD and c['args'][0] != '' and not any(has_witness(t) for t in parse_txs(c['args'][0])))
         if op == 'c15.hist':
             # the block observed when built and once more after the originals were edited again (both as the
             # model says), then the transaction objects themselves observed after their first edits
@@ -919,7 +934,14 @@ class C15(Prop):
                 return False
             if blockpart.startswith('err:'):
                 return first.startswith('err:') and second.startswith('err:')
-            return first == blockpart and second == blockpart
+
+            def same(obs):
+                x, y = obs.split(';'), blockpart.split(';')
+                if len(x) != len(y):
+                    return False
+                return all(u == v or (k == 2 and wroot_ok(u, v, show_txs(hist_plain(c['args'])[0])))
+                           for k, (u, v) in enumerate(zip(x, y)))
+            return same(first) and same(second)
         if op in ('c15.ctor', 'c15.spec.ctor'):
             return io == mo or (io.startswith('err:') and mo.startswith('err:'))
         if op == 'c16.seq':
@@ -988,7 +1010,7 @@ class C15(Prop):
             for t in blk.vtx:
                 t.GetTxid(), t.GetHash(), hash(t)
             r3 = guarded(lambda: blk.calc_merkle_root().hex())
-            wm = guarded(lambda: blk.calc_witness_merkle_root().hex()) if obj_has_witness(blk.vtx) else NOWIT
+            wm = guarded(lambda: blk.calc_witness_merkle_root().hex())
             out = ['ok:' + blk.hashMerkleRoot.hex(), r1 if r1 == r2 == r3 else 'unstable:%s/%s/%s' % (r1, r2, r3),
                    wm, guarded(lambda: str(blk.GetWeight())),
                    ','.join(guarded(lambda t=t: str(t.calc_weight())) for t in blk.vtx)]
